@@ -2,7 +2,7 @@ HOOK_COMMITS = []
 ENGINES = [
     {"name": "runner", "path": "vlib/runner.py", "serves_properties": ["C01"], "kind_free_text": "Hypothesis driver: seeded workers, collect-then-shrink per root-cause key, plain-JSON replay, evidence"},
     {"name": "E1 refcodec", "path": "vlib/refcodec.py", "serves_properties": ["C01","C02","C03"], "kind_free_text": "independent RFC 7252 section 3 codec used as differential oracle and by the raw peers"},
-    {"name": "E2 simnet", "path": "vlib/simnet.py", "serves_properties": ["C02", "C03", "C04", "C10", "C14"], "kind_free_text": "virtual-clock asyncio loop + simulated datagram network under the real aiocoap stack; scripted raw peers; per-datagram fates"},
+    {"name": "E2 simnet", "path": "vlib/simnet.py", "serves_properties": ["C02", "C03", "C04", "C09", "C10", "C14"], "kind_free_text": "virtual-clock asyncio loop + simulated datagram network under the real aiocoap stack; scripted raw peers; per-datagram fates"},
 ]
 ALL = ["C%02d" % i for i in range(1, 21)]
 CHECKS = [
@@ -45,6 +45,14 @@ CHECKS += [
         "technique": "property-based testing of submission/ACK/RST/timeout/error interleavings on a virtual clock against a per-remote FIFO queue model",
         "text": "Generated submissions (client CON/NON requests and server-role CON separate responses) to several remotes with generated exchange outcomes; a queue model over exact wire timestamps decides non-overlap, FIFO order, prompt release and that nothing is forgotten. Sampled interleavings.",
         "note": "trusted: vlib/simnet.py, refcodec; give-up instants computed from the tuning with ACK_RANDOM_FACTOR=1",
+    },
+]
+CHECKS += [
+    {
+        "id": "C09", "engine": "E2 simnet + Hypothesis", "level": "exploration",
+        "technique": "property-based testing over generated handler outcomes (returns, renderable errors, arbitrary exceptions, non-message returns) with an expected-code table oracle and exactly-one-response count per token on the wire",
+        "text": "Handler outcomes of every kind are generated for concurrent requests; the oracle reads the responses per request token off the simulated wire: exactly one, with the tabulated code, bare 5.00 without exception text for non-renderable failures, neighbours judged independently. Sampled combinations.",
+        "note": "trusted: vlib/simnet.py, refcodec, Hypothesis",
     },
 ]
 claimed = {c["id"] for c in CHECKS}
